@@ -123,3 +123,19 @@ Proof. intro Hc. unfold xdiv, xmul.
  - exfalso. apply H2. nra.
  - exfalso. apply H1. rewrite H2. ring.
  - simpl. field. split; auto. lra. Qed.
+
+(* ---- the same at the level of whole labelled arrays: weights c*w scale every cell of the aggregated score by c ---- *)
+Lemma xmul_scale_assoc c s w : xisinf s = false -> xisinf w = false ->
+  xmul s (xmul (XFin c) w) =x= xmul (XFin c) (xmul s w).
+Proof. destruct s as [|s|], w as [|w|]; intros; try discriminate; cbn; auto. ring. Qed.
+
+Theorem mean_score_constant_weight_scales (s w : larr) (c : Q) (R : list dim) (e : env) :
+  ~ c == 0 -> (forall e', xisinf (lget s e') = false) -> (forall e', xisinf (lget w e') = false) ->
+  lget (mean_score s (Some (lmap (xmul (XFin c)) w)) R) e =x= xmul (XFin c) (lget (mean_score s (Some w) R) e).
+Proof. intros Hc Hs Hw. unfold mean_score, apply_weights. cbn [lget lreduce lzip lmap ldims lsize].
+ set (L := envs (fun d => if mem d (ldims s) then lsize s d else lsize w d) (dinter (dunion (ldims s) (ldims w)) R) e).
+ rewrite <- (nanmean_scale c (map (fun e0 => xmul (lget s e0) (lget w e0)) L) Hc).
+ - apply nanmean_ext. rewrite map_map. induction L as [|x t IH]; cbn [map]; constructor; auto.
+   apply xmul_scale_assoc; auto.
+ - intros v Hv. apply in_map_iff in Hv. destruct Hv as [x [<- _]].
+   specialize (Hs x). specialize (Hw x). destruct (lget s x), (lget w x); cbn in *; try discriminate; auto. Qed.
